@@ -21,7 +21,8 @@ func init() {
 			"R4 every data.Lookup(d, K, *T) has a data.WithValue(d, K, T) with the same static key type and value type (a mismatch panics inside data.Lookup); R5 errors of mainCmd.Run reach exit status 1, patch.Parse / File.Apply return errors of parse/compile rather than panic; R6 no uncomparable scalar is reachable in the go/ast schema (ValueMatcher's == would panic); R7 every recursive search (a function that calls itself from inside a candidate loop) consults a failure memo before searching and records the failure after the loop, so the search is not exponential in the number of '...'; R8 a pointer obtained by type-asserting reflect.Value.Interface() (optional go/ast fields are typed nil pointers inside the interface) is dereferenced only behind a nil test, listed exceptions aside. " +
 			"R9 the pointer result of a call whose error is tested is never consumed on the failure side — not used in the blocks only the failure edge reaches, and not carried on through a phi edge leaving them unless every later consumer sits behind a nil test of it (a nil *ast.File surviving a failed Replace crashes the printer); R10 slice expressions whose two bounds are both computed have low <= high established by a counting loop that starts at low, by a dominating comparison, or are listed as audited by construction. " +
 			"NOT decided: general nil-dereference and index-out-of-range safety, recursion depth, memory use, and the internals of go/scanner, go/parser, go/printer, reflect." +
-			" R12 compiled Matcher/Replacer fields never receive nil; R13 emptied comment groups are dropped from File.Comments (F14); R5 also: a function literal of Run that assigns its named error result builds on the current value.",
+			" R12 compiled Matcher/Replacer fields never receive nil; R13 emptied comment groups are dropped from File.Comments (F14); R5 also: a function literal of Run that assigns its named error result builds on the current value." +
+			" R14 a comparison handed to diff.Difference that itself diffs lists is made once per pair (F16).",
 		Trusted:     append([]string{"go/scanner.Scanner.Scan keeps returning token.EOF once the input is exhausted", "bufio.Scanner.Scan terminates"}, commonTrusted...),
 		Assumptions: commonAssumptions,
 	})
